@@ -82,6 +82,25 @@ func runC06(c *Ctx) {
 			w = f.AfterEdgesMayReach(fail, nil, nil, setRunning)
 			c.Check(w == nil, "init/failed-PreStart⇏running", "a failed PreStart never makes the actor running", c.P.Pos(initFn.Decl.Pos()), f.describe(w))
 		}
+		// restartSubtree: init (PreStart of the new incarnation) only after the old incarnation's turn is quiescent
+		rs := c.Func("actor", "restartSubtree")
+		rf := c.NewFlow(rs)
+		loadM := rf.CallOnField(c.Field("actor", "PID", "schedState"), "Load")
+		quiet := rf.EdgesWhere(func(cond ast.Expr) (bool, bool) {
+			be, ok := ast.Unparen(cond).(*ast.BinaryExpr)
+			if !ok {
+				return false, false
+			}
+			if loadM(ast.Unparen(be.X)) || loadM(ast.Unparen(be.Y)) {
+				return true, false
+			}
+			return false, false
+		})
+		wq := rf.search(searchSpec{avoidEdges: quiet, target: rf.CallTo(initFn.Obj)})
+		c.Check(wq == nil && len(quiet) > 0, "restart/quiescent≺init", "on restart PreStart (init) runs only after the wait for schedState != Processing: the previous incarnation's handler has left its turn", c.P.Pos(rs.Decl.Pos()), rf.describe(wq))
+		sd := rf.CallTo(c.FuncObj("actor", "PID.Shutdown"))
+		wq = rf.MayReach(rf.Find(rf.CallTo(initFn.Obj)), nil, sd)
+		c.Check(wq == nil, "restart/stop≺init", "on restart the old incarnation is stopped before the new one is initialised (no Shutdown after init)", c.P.Pos(rs.Decl.Pos()), rf.describe(wq))
 		// newPID: nothing delivered before init
 		np := c.Func("actor", "newPID")
 		nf := c.NewFlow(np)
